@@ -8,6 +8,8 @@ This is used to resolve *tables and layout constants* written in the source (str
 context table, codec tables); it is not used to run repository functions on input data.
 """
 import ast
+import os
+import sys
 import collections
 import itertools
 import re
@@ -25,7 +27,10 @@ TOP = Top()
 
 
 class Unfoldable(Exception):
-    pass
+    def __init__(self, *a):
+        super().__init__(*a)
+        if os.environ.get('SA_DEBUG'):
+            print('Unfoldable:', *a, file=sys.stderr)
 
 
 STD_CONSTS = {
@@ -66,6 +71,8 @@ def _groupby(iterable, key=None):
 
 
 import operator as _operator
+import heapq as _heapq
+PURE_FUNCS.update({'heapq.nsmallest': _heapq.nsmallest, 'heapq.nlargest': _heapq.nlargest, 'nsmallest': _heapq.nsmallest, 'nlargest': _heapq.nlargest})
 PURE_FUNCS.update({'itertools.groupby': _groupby, 'groupby': _groupby, 'operator.itemgetter': _operator.itemgetter, 'itemgetter': _operator.itemgetter})
 PURE_FUNCS.update({'windowed': _windowed, 'more_itertools.windowed': _windowed, 'np.searchsorted': _searchsorted, 'numpy.searchsorted': _searchsorted})
 PURE_FUNCS = {k: v for k, v in PURE_FUNCS.items() if v is not None}
@@ -300,7 +307,12 @@ class Evaluator:
             if r is not NotImplemented:
                 return r
         d = dotted(e.func)
-        args = [self.ev(a, env) for a in e.args]
+        args = []
+        for a in e.args:
+            if isinstance(a, ast.Starred):
+                args.extend(list(self.ev(a.value, env)))
+            else:
+                args.append(self.ev(a, env))
         kwargs = {k.arg: self.ev(k.value, env) for k in e.keywords if k.arg}
         for k in e.keywords:
             if k.arg is None:
